@@ -135,3 +135,14 @@ MUTANTS += [
     M("c07-setattr-allowed", "C07,C06", "setattr permitted by default", (P, "    allow_setattr=False,", "    allow_setattr=True,")),
     M("c07-instancecheck-eval", "C07", "instancecheck resolves class names by import", (P, "        else:  # might just have missed cache, FIX ME\n            return False", "        else:  # might just have missed cache, FIX ME\n            try:\n                __import__(str(other_id_pack[0]).rsplit('.', 1)[0])\n            except Exception:\n                pass\n            return False")),
 ]
+
+MUTANTS += [
+    # ---- C10
+    M("c10-decref-le", "C10", "decref removes the slot one unit early", (COL, "            if slot[1] < count:", "            if slot[1] <= count:")),
+    M("c10-add-starts-at-1", "C10", "first add counts 1 instead of 0", (COL, "                slot = [obj, 0]", "                slot = [obj, 1]")),
+    M("c10-unbox-no-bump", "C10", "cached proxy's count not bumped on re-receipt", (P, "                proxy.____refcount__ += 1  # if cached then remote incremented refcount, so sync refcount", "                pass")),
+    M("c10-del-sends-1", "C10", "proxy finalizer sends 1 instead of its whole count", (N, "            asyncreq(self, consts.HANDLE_DEL, self.____refcount__)", "            asyncreq(self, consts.HANDLE_DEL, 1)")),
+    M("c10-cleanup-no-clear", "C10,C11", "_cleanup does not clear the table of lent objects", (P, "        self._local_objects.clear()\n        self._proxy_cache.clear()", "        self._proxy_cache.clear()")),
+    M("c10-del-default-count", "C10", "_handle_del ignores the count", (P, "        self._local_objects.decref(get_id_pack(obj), count)", "        self._local_objects.decref(get_id_pack(obj))")),
+    M("c10-box-no-add-in-tuple", "C10", "objects inside LABEL_TUPLE of length 2 are boxed without being recorded", (P, "            return consts.LABEL_TUPLE, tuple(self._box(item) for item in obj)", "            return consts.LABEL_TUPLE, tuple(self._box(item) if len(obj) != 2 or i == 0 else (consts.LABEL_REMOTE_REF, get_id_pack(item)) for i, item in enumerate(obj))")),
+]
